@@ -26,34 +26,27 @@ theorem Heap.set_other (h : Heap) (a b : Nat) (o : EObj) (hb : b ≠ a) : (h.set
 @[simp] theorem RHeap.set_same (h : RHeap) (a : Nat) (o : RObj) : (h.set a o) a = o := by simp [RHeap.set]
 theorem RHeap.set_other (h : RHeap) (a b : Nat) (o : RObj) (hb : b ≠ a) : (h.set a o) b = h b := by simp [RHeap.set, hb]
 
-/-- `__str__` on an object whose caches are valid: the reference message; the caches stay valid;
-    no other object is touched -/
-theorem render_sim (cfg : Cfg) (h : Heap) (e : Nat) (r : RObj) (hs : SimObj cfg r (h e)) :
-    (render cfg h e).1 = refText r ∧ SimObj cfg r ((render cfg h e).2 e) ∧
-    ∀ a, a ≠ e → (render cfg h e).2 a = h a := by
-  unfold render
-  cases hm : (if cfg.strReturnsMemo = true then (h e).finalizedStr else none) with
-  | some t =>
-    simp only
+/-- `__str__` on an object whose caches are valid: the reference message; the caches stay valid -/
+theorem strObj_sim (cfg : Cfg) (o : EObj) (r : RObj) (hs : SimObj cfg r o) :
+    (strObj cfg o).1 = refText r ∧ SimObj cfg r (strObj cfg o).2 := by
+  unfold strObj
+  split
+  · next t hm =>
     have hg : cfg.strReturnsMemo = true := by
       cases hc : cfg.strReturnsMemo with
       | true => rfl
-      | false => simp [hc] at hm
-    simp only [hg, if_true] at hm
-    exact ⟨hs.memo hg t hm, hs, fun _ _ => rfl⟩
-  | none =>
-    simp only
-    cases hsc : (h e).scope with
-    | none =>
-      simp only
+      | false => simp [memoOf, hc] at hm
+    simp only [memoOf, hg, if_true] at hm
+    exact ⟨hs.memo hg t hm, hs⟩
+  · split
+    · next hsc =>
       have hf : r.fin = none := by
         have := hs.scope; rw [hsc] at this
         cases hfin : r.fin with
         | none => rfl
         | some x => rw [hfin] at this; simp at this
-      exact ⟨by simp [refText, hf, hs.args], hs, fun _ _ => rfl⟩
-    | some s =>
-      simp only
+      exact ⟨by simp [refText, hf, hs.args], hs⟩
+    · next s hsc =>
       obtain ⟨l, t', hf⟩ : ∃ l t', r.fin = some (l, t') := by
         have := hs.scope; rw [hsc] at this
         cases hfin : r.fin with
@@ -61,15 +54,12 @@ theorem render_sim (cfg : Cfg) (h : Heap) (e : Nat) (r : RObj) (hs : SimObj cfg 
         | some x => exact ⟨x.1, x.2, rfl⟩
       have hsl : s = l := by
         have := hs.scope; rw [hsc, hf] at this; simpa using this
-      have htb : (h e).tbLines = some (l, t') := by rw [hs.tb, hf]
+      have htb : o.tbLines = some (l, t') := by rw [hs.tb, hf]
       -- the trace: reused or computed, it is the trace of the scope of the last finalization
-      have htr : (match (if cfg.strReusesTrace = true then (h e).traceMemo else none) with
-          | some tr => tr
-          | none => (s, (h e).wrapped)) = (l, r.wrapped) := by
-        cases hq : (if cfg.strReusesTrace = true then (h e).traceMemo else none) with
-        | none => simp only; rw [hsl, hs.wrapped]
-        | some tr =>
-          simp only
+      have htr : traceOf cfg o s = (l, r.wrapped) := by
+        unfold traceOf
+        split
+        · next tr hq =>
           have hg : cfg.strReusesTrace = true := by
             cases hc : cfg.strReusesTrace with
             | true => rfl
@@ -79,11 +69,10 @@ theorem render_sim (cfg : Cfg) (h : Heap) (e : Nat) (r : RObj) (hs : SimObj cfg 
           rw [hf] at hf2
           have : l = l2 := by injection hf2 with h1; exact (Prod.mk.inj h1).1
           rw [htr, this]
-      rw [htr, htb]
-      have htext : Text.full l r.wrapped l t' = refText r := by simp [refText, hf]
-      refine ⟨htext, ?_, fun a ha => Heap.set_other _ _ _ _ ha⟩
-      rw [Heap.set_same]
-      refine ⟨hs.args, hs.wrapped, hs.scope, hs.tb, ?_, ?_⟩
+        · rw [hsl, hs.wrapped]
+      have htext : textOf o (traceOf cfg o s) = refText r := by
+        rw [htr]; simp [textOf, htb, refText, hf]
+      refine ⟨htext, hs.args, hs.wrapped, hs.scope, hs.tb, ?_, ?_⟩
       · intro hg t ht
         simp only at ht
         cases hst : cfg.strStoresMemo with
@@ -92,7 +81,14 @@ theorem render_sim (cfg : Cfg) (h : Heap) (e : Nat) (r : RObj) (hs : SimObj cfg 
       · intro _ tr htr'
         simp only at htr'
         injection htr' with htr'
-        exact ⟨l, t', hf, htr'.symm⟩
+        exact ⟨l, t', hf, by rw [← htr', htr]⟩
+
+theorem render_sim (cfg : Cfg) (h : Heap) (e : Nat) (r : RObj) (hs : SimObj cfg r (h e)) :
+    (render cfg h e).1 = refText r ∧ SimObj cfg r ((render cfg h e).2 e) ∧
+    ∀ a, a ≠ e → (render cfg h e).2 a = h a := by
+  have := strObj_sim cfg (h e) r hs
+  simp only [render, Heap.set_same]
+  exact ⟨this.1, this.2, fun a ha => Heap.set_other _ _ _ _ ha⟩
 
 /-- `_finalize`: valid caches for the exception being handled, the structural part for the error
     that is finalized (its caches may be stale: they are reset) -/
@@ -150,12 +146,14 @@ theorem copy_sim (cfg : Cfg) (h : Heap) (rh : RHeap) (src dst : Nat) (k : CopyKi
       exact ⟨(hs src).args, rfl, rfl, rfl, fun _ t h => by simp at h, fun _ tr h => by simp at h⟩
     · rw [Heap.set_other _ _ _ _ ha, RHeap.set_other _ _ _ _ ha]; exact hs a
 
+/-- what `opOK` says about an exit -/
+def ExitHyp (rh : RHeap) (e out : Nat) : ExitKind → Prop
+  | .same => (rh e).fin = none ∨ (rh e).wrapped = some e
+  | .copy _ => out ≠ e
+
 /-- the handler of `glom()` -/
 theorem exit_sim (cfg : Cfg) (hwf : cfg.WF = true) (h : Heap) (rh : RHeap) (lvl e out : Nat) (k : ExitKind)
-    (hs : Sim cfg h rh)
-    (hok : match k with
-      | .same => (rh e).fin = none ∨ (rh e).wrapped = some e
-      | .copy _ => out ≠ e) :
+    (hs : Sim cfg h rh) (hok : ExitHyp rh e out k) :
     Sim cfg (exit cfg h lvl e out k) (refExit rh lvl e out k) := by
   cases k with
   | same =>
@@ -197,9 +195,7 @@ theorem exit_sim (cfg : Cfg) (hwf : cfg.WF = true) (h : Heap) (rh : RHeap) (lvl 
 
 theorem opOK_exit_hyp (s : RSt) (seen : List Nat) (lvl e out : Nat) (k : ExitKind)
     (h : opOK s seen (.exit lvl e out k) = true) :
-    (match k with
-      | .same => (s.heap e).fin = none ∨ (s.heap e).wrapped = some e
-      | .copy _ => out ≠ e) ∧ lvl ∉ seen := by
+    ExitHyp s.heap e out k ∧ lvl ∉ seen := by
   cases k with
   | same =>
     simp only [opOK, Bool.and_eq_true, Bool.or_eq_true, Bool.not_eq_true', beq_iff_eq] at h
@@ -271,7 +267,7 @@ theorem opsOK_erase (ops : List Op) (s s' : RSt) (seen : List Nat) (hh : s.heap 
   | cons op r ih =>
     simp only [opsOK, Bool.and_eq_true] at hok
     cases op with
-    | render e => simp only [List.filter, isRender, Bool.not_true]; exact ih _ _ _ hh hok.2
+    | render e => simp only [List.filter, isRender, Bool.not_true]; exact ih (refStep s (.render e)) s' seen hh hok.2
     | ucopy src dst k =>
       simp only [List.filter, isRender, Bool.not_false, opsOK, Bool.and_eq_true]
       exact ⟨rfl, ih _ _ _ (by simp only [refStep]; rw [hh]) hok.2⟩
@@ -279,21 +275,27 @@ theorem opsOK_erase (ops : List Op) (s s' : RSt) (seen : List Nat) (hh : s.heap 
       simp only [List.filter, isRender, Bool.not_false, opsOK, Bool.and_eq_true]
       refine ⟨?_, ih _ _ _ (by simp only [refStep]; rw [hh]) hok.2⟩
       have := hok.1
-      cases k <;> simp only [opOK] at this ⊢ <;> rw [← hh] <;> exact this
+      cases k with
+      | same => simp only [opOK] at this ⊢; rw [← hh]; exact this
+      | copy ck => exact this
+
+theorem opsOK_renders (ops : List Op) (h2 : ∀ op ∈ ops, isRender op = true) (s : RSt) (seen : List Nat) :
+    opsOK ops s seen = true := by
+  induction ops generalizing s seen with
+  | nil => rfl
+  | cons op r ih =>
+    have := h2 op (List.mem_cons_self ..)
+    cases op with
+    | render e =>
+      simp only [opsOK, opOK, Bool.true_and]
+      exact ih (fun o ho => h2 o (List.mem_cons_of_mem _ ho)) _ _
+    | ucopy _ _ _ => simp [isRender] at this
+    | exit _ _ _ _ => simp [isRender] at this
 
 theorem opsOK_append (ops ops' : List Op) (s : RSt) (seen : List Nat)
     (h1 : opsOK ops s seen = true) (h2 : ∀ op ∈ ops', isRender op = true) : opsOK (ops ++ ops') s seen = true := by
   induction ops generalizing s seen with
-  | nil =>
-    simp only [List.nil_append]
-    induction ops' generalizing s seen with
-    | nil => rfl
-    | cons op r ih =>
-      have := h2 op (List.mem_cons_self ..)
-      cases op with
-      | render e => simp only [opsOK, opOK, Bool.true_and]; exact ih _ _ rfl (fun o ho => h2 o (List.mem_cons_of_mem _ ho))
-      | ucopy _ _ _ => simp [isRender] at this
-      | exit _ _ _ _ => simp [isRender] at this
+  | nil => exact opsOK_renders ops' h2 s seen
   | cons op r ih =>
     simp only [List.cons_append, opsOK, Bool.and_eq_true] at h1 ⊢
     exact ⟨h1.1, ih _ _ h1.2⟩
@@ -384,7 +386,7 @@ theorem tinv_step (s : RSt) (seen : List Nat) (op : Op) (hi : TInv s seen) (hok 
         by_cases ha : a = e
         · subst ha
           rw [RHeap.set_same] at hf ⊢
-          simp only [RHeap.set_same] at hf
+          simp only at hf
           have : l = lvl := by injection hf with h1; exact ((Prod.mk.inj h1).1).symm
           subst this
           simp only [refRender, RHeap.set_same]
@@ -396,7 +398,7 @@ theorem tinv_step (s : RSt) (seen : List Nat) (op : Op) (hi : TInv s seen) (hok 
         by_cases ha : a = out
         · subst ha
           rw [RHeap.set_same] at hf ⊢
-          simp only [RHeap.set_same] at hf
+          simp only at hf
           have : l = lvl := by injection hf with h1; exact ((Prod.mk.inj h1).1).symm
           subst this
           simp only [refRender, RHeap.set_same]
@@ -432,7 +434,10 @@ theorem refRun_table_mono (ops : List Op) (s : RSt) : ∃ more, (refRun ops s).t
     cases op with
     | render e => exact ⟨more, by simpa [refRun, refStep] using hm⟩
     | ucopy _ _ _ => exact ⟨more, by simpa [refRun, refStep] using hm⟩
-    | exit lvl e out k => exact ⟨_ :: more, by simp only [refRun]; rw [hm]; simp [refStep]⟩
+    | exit lvl e out k =>
+      refine ⟨(lvl, refRender (refExit s.heap lvl e out k) (exitTarget e out k)) :: more, ?_⟩
+      simp only [refRun]; rw [hm]
+      simp only [refStep, List.append_assoc, List.singleton_append]
 
 /-- the renders of the reference run, their levels, and the final table -/
 theorem refRun_levels (ops : List Op) (s : RSt) (seen : List Nat) (hi : TInv s seen) (hok : opsOK ops s seen = true) :
@@ -468,5 +473,75 @@ theorem refRun_levels (ops : List Op) (s : RSt) (seen : List Nat) (hi : TInv s s
     | exit lvl e out k =>
       exact ⟨new, by simp only [refRun]; rw [h1]; simp [refStep], by simpa [renderLevels] using h2,
         fun p hp l hl => h3 p (by simpa [renderLevels] using hp) l hl⟩
+
+/-! ### histories put together from pieces; `n` calls inside one another -/
+
+def seenRun : List Nat → List Op → List Nat
+  | seen, [] => seen
+  | seen, op :: r => seenRun (seenAfter seen op) r
+
+theorem opsOK_append_iff (a b : List Op) (s : RSt) (seen : List Nat) :
+    opsOK (a ++ b) s seen = (opsOK a s seen && opsOK b (refRun a s) (seenRun seen a)) := by
+  induction a generalizing s seen with
+  | nil => simp [opsOK, refRun, seenRun]
+  | cons op r ih => simp only [List.cons_append, opsOK, refRun, seenRun, ih, Bool.and_assoc]
+
+theorem seenRun_append (a b : List Op) (seen : List Nat) : seenRun seen (a ++ b) = seenRun (seenRun seen a) b := by
+  induction a generalizing seen with
+  | nil => rfl
+  | cons op r ih => exact ih _
+
+theorem seenRun_renders (rs : List Op) (h : ∀ op ∈ rs, isRender op = true) (seen : List Nat) : seenRun seen rs = seen := by
+  induction rs generalizing seen with
+  | nil => rfl
+  | cons op r ih =>
+    have := h op (List.mem_cons_self ..)
+    cases op with
+    | render e => exact ih (fun o ho => h o (List.mem_cons_of_mem _ ho)) _
+    | ucopy _ _ _ => simp [isRender] at this
+    | exit _ _ _ _ => simp [isRender] at this
+
+/-- `n` glom() calls inside one another, innermost first: call `i+1` handles the error call `i`
+    ended with (object `i`; object 0 is the exception a step raised) and ends with the copy `i+1`,
+    which the callable that made call `i+1` renders `k` times before letting it go on -/
+def chain (k : Nat) : Nat → List Op
+  | 0 => []
+  | n + 1 => chain k n ++ (Op.exit (n + 1) n (n + 1) (.copy .carry) :: List.replicate k (Op.render (n + 1)))
+
+theorem seenRun_chain (k n : Nat) : ∀ l ∈ seenRun [] (chain k n), l ≤ n := by
+  induction n with
+  | zero => intro l hl; simp [chain, seenRun] at hl
+  | succ n ih =>
+    intro l hl
+    simp only [chain, seenRun_append, seenRun] at hl
+    rw [seenRun_renders _ (by intro op hop; rw [List.eq_of_mem_replicate hop]; rfl)] at hl
+    simp only [seenAfter, List.mem_cons] at hl
+    rcases hl with h | h
+    · omega
+    · have := ih l h; omega
+
+theorem opsOK_chain (k n : Nat) : opsOK (chain k n) ⟨RHeap.init, [], []⟩ [] = true := by
+  induction n with
+  | zero => rfl
+  | succ n ih =>
+    simp only [chain]
+    rw [opsOK_append_iff, ih, Bool.true_and]
+    simp only [opsOK, opOK, Bool.and_eq_true, bne_iff_ne, ne_eq, Bool.not_eq_true', List.contains_eq_mem,
+      decide_eq_false_iff_not]
+    refine ⟨⟨by omega, ?_⟩, opsOK_renders _ (by intro op hop; rw [List.eq_of_mem_replicate hop]; rfl) _ _⟩
+    intro hm
+    have := seenRun_chain k n _ hm
+    omega
+
+theorem opsOK_chain_exit (k n : Nat) :
+    opsOK (chain k n ++ [Op.exit (n + 1) n (n + 1) (.copy .carry)]) ⟨RHeap.init, [], []⟩ [] = true := by
+  have := opsOK_chain k (n + 1)
+  simp only [chain] at this
+  rw [opsOK_append_iff] at this ⊢
+  simp only [Bool.and_eq_true] at this ⊢
+  refine ⟨this.1, ?_⟩
+  have h2 := this.2
+  simp only [opsOK, Bool.and_eq_true] at h2 ⊢
+  exact ⟨h2.1, trivial⟩
 
 end Glom.C20.ErrM
